@@ -22,10 +22,51 @@ def base_formulas():
             # the same closed sub-formula inside and outside a restricted scope (first occurrence inside)
             ('and', ('not', ('exists', 'x', 'd', ('jump', 'x', ('EF', P0)))), ('exists', 'x', None, ('jump', 'x', ('EF', P0)))),
             ('or', ('bind', 'x', 'd', ('and', ('AX', ('EX', P1)), X)), ('AX', ('EX', P1))),
-            ('and', ('exists', 'x', None, ('jump', 'x', ('AG', P1))), ('forall', 'x', 'd', ('jump', 'x', ('AG', P1))))]
+            ('and', ('exists', 'x', None, ('jump', 'x', ('AG', P1))), ('forall', 'x', 'd', ('jump', 'x', ('AG', P1))))] + many_occurrences() + two_depths()
+
+def many_occurrences():
+    """one closed sub-formula at >= 4 places: twice below the same operator inside a restricted scope whose variable it does
+    not contain, then again outside the scope (before / after it in evaluation order)"""
+    out = []
+    for psi in (('EX', P1), ('bind', 'x', None, ('AX', X))):
+        inner = S_shift(psi, 1)
+        out.append(('and', ('bind', 'x', 'd', ('and', ('AX', inner), ('EF', ('AX', inner)))), ('or', psi, ('EF', psi))))
+        out.append(('and', ('or', psi, ('EF', psi)), ('exists', 'x', 'd', ('or', ('jump', 'x', ('AX', inner)), ('EF', ('AX', inner))))))
+    return out
+
+def two_depths_n1():
+    """two_depths() over the single proposition v0 (evaluated on one-variable networks, where k = 3 is cheap)"""
+    def go(f):
+        if f == P1: return P0
+        if f[0] in ('true', 'false', 'prop', 'var', 'wild'): return f
+        if f[0] == 'jump': return ('jump', f[1], go(f[2]))
+        if f[0] in S.QUANT: return (f[0], f[1], f[2], go(f[3]))
+        return (f[0],) + tuple(go(c) for c in f[1:])
+    return [go(f) for f in two_depths()]
+
+def two_depths():
+    """a sub-formula with one free variable that contains a closed sub-formula with its own variable, at two nesting depths
+    one level apart (x/xx versus xx/xxx): cached results are renamed through a multi-entry map"""
+    XXX = ('var', 'xxx')
+    Pd2 = ('bind', 'xx', None, ('EX', ('and', ('not', XX), P0))); Pd3 = ('bind', 'xxx', None, ('EX', ('and', ('not', XXX), P0)))
+    return [('and', ('bind', 'x', None, ('EF', ('and', X, Pd2))), ('exists', 'x', None, ('bind', 'xx', None, ('and', ('jump', 'x', ('not', P1)), ('EF', ('and', XX, Pd3)))))),
+            ('or', ('exists', 'x', None, ('bind', 'xx', None, ('and', ('jump', 'x', P1), ('EF', ('and', XX, Pd3))))), ('bind', 'x', None, ('EF', ('and', X, Pd2))))]
+
+def S_shift(phi, d):
+    """rename the quantifiers of a closed formula as if it sat below d enclosing quantifiers"""
+    def go(f):
+        op = f[0]
+        if op == 'var': return ('var', f[1] + 'x' * d)
+        if op in ('true', 'false', 'prop', 'wild'): return f
+        if op == 'jump': return ('jump', f[1] + 'x' * d, go(f[2]))
+        if op in S.QUANT: return (op, f[1] + 'x' * d, f[2], go(f[3]))
+        return (op,) + tuple(go(c) for c in f[1:])
+    return go(phi)
 
 def all_occurrences(phi, sub):
-    return [path for path, s_ in G.positions(phi) if s_ == sub]
+    """positions of the closed sub-formula, up to the depth-dependent names of its own quantifiers"""
+    ns = S.normalise(sub)
+    return [path for path, s_ in G.positions(phi) if path and not S.free_vars(s_) and s_[0] not in ('true', 'false', 'prop', 'wild') and S.normalise(s_) == ns]
 
 def run(chk):
     thorough = chk.tier == 'thorough'
@@ -33,28 +74,37 @@ def run(chk):
                        'E-UNI': 'instances U2, C2, M2: context sets produced by model_check_extended_formula_dirty itself; miter between C[psi] and C[%p%]',
                        'outside': 'benchmark-size networks (the thorough tier only reports a miter on the bundled 13-variable model as beyond-bound evidence)'})
     tasks = []; rng = chk.rng
-    for phi in base_formulas():
+    td = two_depths()
+    for phi in base_formulas() + two_depths_n1():
+        n_ = 1 if phi in two_depths_n1() else 2
+        if phi in td and not thorough: continue      # k = 3 on two variables: ~90 s per task, thorough tier only (quick: one variable)
         pos = closed_positions(phi)
         rng.shuffle(pos)
         k = S.quant_depth(phi) or 1
         for (path, sub) in pos[:3 if thorough else 1]:
             sub_phi = G.replace(phi, path, ('wild', 'q1'))
-            tasks.append({'n': 2, 'k': k, 'c': 0, 'entry': 'multi_ext_dirty', 'phis': [phi], 'texts': [S.show(sub_phi)], 'ctx_formulas': {'q1': sub}, 'extra_labels': sorted(S.labels(phi)[0] | S.labels(phi)[1])})
-        # every occurrence of one closed sub-formula replaced by the SAME wild-card (inside and outside restricted scopes)
-        for (path, sub) in pos:
+            tasks.append({'n': n_, 'k': k, 'c': 0, 'entry': 'multi_ext_dirty', 'phis': [phi], 'texts': [S.show(sub_phi)], 'ctx_formulas': {'q1': sub}, 'extra_labels': sorted(S.labels(phi)[0] | S.labels(phi)[1])})
+        # every occurrence of one closed sub-formula replaced by the SAME wild-card (inside and outside restricted scopes);
+        # the sub-formulas with the most occurrences first
+        seen = []; special = phi in many_occurrences() or phi in two_depths() or n_ == 1
+        for (path, sub) in sorted(pos, key=lambda ps: -len(all_occurrences(phi, ps[1]))):
             occ = all_occurrences(phi, sub)
-            if len(occ) >= 2:
+            if len(occ) >= 2 and S.normalise(sub) not in seen and len(seen) < (2 if special or thorough else 1):
+                seen.append(S.normalise(sub))
                 sub_phi = phi
                 for pth in occ: sub_phi = G.replace(sub_phi, pth, ('wild', 'q1'))
-                tasks.append({'n': 2, 'k': k, 'c': 0, 'entry': 'multi_ext_dirty', 'phis': [phi], 'texts': [S.show(sub_phi)], 'ctx_formulas': {'q1': sub}, 'extra_labels': sorted(S.labels(phi)[0] | S.labels(phi)[1])})
-                break
+                t = {'n': n_, 'k': k, 'c': 0, 'entry': 'multi_ext_dirty', 'phis': [phi], 'texts': [S.show(sub_phi)], 'ctx_formulas': {'q1': S.normalise(sub)}, 'extra_labels': sorted(S.labels(phi)[0] | S.labels(phi)[1])}
+                tasks.append(t)
+                if phi in two_depths() or n_ == 1:
+                    # the plain formula itself, under every iteration-order policy of the renaming maps
+                    tasks.append({'n': n_, 'k': k, 'c': 0, 'entry': 'multi_ext_dirty', 'phis': [phi], 'order_mode': 'global'})
         # two simultaneous, non-overlapping replacements
         for (p1, s1) in pos:
             done = False
             for (p2, s2) in pos:
                 if p1 != p2 and p1[:len(p2)] != p2 and p2[:len(p1)] != p1:
                     sub_phi = G.replace(G.replace(phi, p1, ('wild', 'q1')), p2, ('wild', 'q2'))
-                    tasks.append({'n': 2, 'k': k, 'c': 0, 'entry': 'multi_ext_dirty', 'phis': [phi], 'texts': [S.show(sub_phi)], 'ctx_formulas': {'q1': s1, 'q2': s2}, 'extra_labels': sorted(S.labels(phi)[0] | S.labels(phi)[1])})
+                    tasks.append({'n': n_, 'k': k, 'c': 0, 'entry': 'multi_ext_dirty', 'phis': [phi], 'texts': [S.show(sub_phi)], 'ctx_formulas': {'q1': s1, 'q2': s2}, 'extra_labels': sorted(S.labels(phi)[0] | S.labels(phi)[1])})
                     done = True; break
             if done: break
     # plain formulas: extended entry points with an empty context == plain entry points (both == semantics)
@@ -84,16 +134,25 @@ def e_uni(chk, thorough):
             if len(occ) >= 2:
                 chosen = [chosen[0]]
                 for pth in occ: sub_phi = G.replace(sub_phi, pth, ('wild', 'q0'))
-                extra['q0'] = {'t': 'mc', 'f': S.show(chosen[0][1])}
+                extra['q0'] = {'t': 'mc', 'f': S.show(S.normalise(chosen[0][1]))}
             else:
               for i, (p, s) in enumerate(chosen):
                 sub_phi = G.replace(sub_phi, p, ('wild', f'q{i}')); extra[f'q{i}'] = {'t': 'mc', 'f': S.show(s)}
             k = S.quant_depth(phi) or 1
-            try: sess = UC.Session(inst, k, [{'phis': [phi], 'entry': 'ext_dirty'}, {'phis': [sub_phi], 'entry': 'ext_dirty'}, {'phis': [sub_phi], 'entry': 'ext'}], extra_ctx=extra)
+            reps = 4 if phi in two_depths() else 0     # renaming maps iterate in a per-map random order: repeat the plain evaluation
+            try: sess = UC.Session(inst, k, [{'phis': [phi], 'entry': 'ext_dirty'}, {'phis': [sub_phi], 'entry': 'ext_dirty'}, {'phis': [sub_phi], 'entry': 'ext'}] + [{'phis': [phi], 'entry': 'ext_dirty'}] * reps, extra_ctx=extra)
             except RuntimeError as e:
                 chk.obligation(f'C10/E-UNI {inst.name}: {S.show(sub_phi)}', 'E-UNI', 'inconclusive'); continue
             name = f'C10/E-UNI {inst.name} k={k}: {S.show(phi)}  ==  {S.show(sub_phi)} with ' + ', '.join(f'%q{i}% := raw result of {S.show(s)}' for i, (p, s) in enumerate(chosen))
             a, b = sess.first(0), sess.first(1)
+            if reps:
+                same = all(sess.first(3 + i_) == a for i_ in range(reps))
+                nm_ = f'C10/native {inst.name}: {reps + 1} evaluations of {S.show(phi)} return the same BDD'
+                chk.obligation(nm_, 'native', 'holds' if same else 'violated', 0.0, False)
+                if not same:
+                    chk.violation(nm_, 'unstable', {'instance': inst.name, 'aeon': inst.aeon, 'formula': S.show(phi)}, 'repeated evaluations of the same formula give different sets (iteration order of a hash map)')
+                    for i_ in range(reps):
+                        if sess.first(3 + i_) != a and sess.first(3 + i_) is not None: UC.check_equiv(chk, 'C10', sess, phi, sess.first(3 + i_), name + f' [repeat {i_} == semantics]', 'substitution')
             if a is None or b is None:
                 chk.obligation(name, 'E-UNI', 'violated'); chk.violation(name, 'substitution-error', {'instance': inst.name, 'aeon': inst.aeon, 'answers': sess.runs}, f'evaluation failed: {sess.runs}'); continue
             v = uni.decide([sess.dec.unit, sess.dec.bdd(a) != sess.dec.bdd(b)]); chk.queries += 1
